@@ -25,6 +25,7 @@ pub fn f_eval<T: Sc>(fam: Family, x: T, p: &[T]) -> T {
         Family::ExpQuad5 => Float::exp(-(p[0] + p[1] * x)) * (p[2] + p[3] * x + p[4] * x * x),
         Family::Const => one,
         Family::Linear => x,
+        Family::TanhStep => Float::tanh((x - p[0]) / p[1]),
     }
 }
 
@@ -65,6 +66,14 @@ pub fn f_deriv<T: Sc>(fam: Family, x: T, p: &[T], l: usize) -> T {
         (Family::ExpQuad5, 2) => Float::exp(-(p[0] + p[1] * x)),
         (Family::ExpQuad5, 3) => x * Float::exp(-(p[0] + p[1] * x)),
         (Family::ExpQuad5, 4) => x * x * Float::exp(-(p[0] + p[1] * x)),
+        (Family::TanhStep, 0) => {
+            let t = Float::tanh((x - p[0]) / p[1]);
+            -(one - t * t) / p[1]
+        }
+        (Family::TanhStep, 1) => {
+            let t = Float::tanh((x - p[0]) / p[1]);
+            -(one - t * t) * (x - p[0]) / (p[1] * p[1])
+        }
         _ => T::of(0.0),
     }
 }
